@@ -135,7 +135,7 @@ def gen_cases(ctx, quick):
         for f in 'TR':
             for k in (1, 3, 15, 16):
                 for n in list(range(0, 2101)) + [65535]:
-                    for s in (0, max(0, 65536 - n)):
+                    for s in (0, min(65535, max(0, 65536 - n))):
                         cases.append((f, k, 1, s, n, ('s', 2 + n) if k in (15, 16) else None))
     seen, out = set(), []
     for c in cases:
@@ -158,7 +158,9 @@ def evaluate(ctx, cases):
     # spread the expensive cases (long value vectors) evenly over the coqc shards
     order = list(range(len(cases)))
     order.sort(key=lambda i: (i * 7919) % 104729)
-    shuffled = ctx.coq_eval(REQS, 'run_enc', [to_coq(cases[i], txs[i]) for i in order], case_type=CASE_TYPE, per_shard=250)
+    shuffled = []
+    for lo in range(0, len(order), 6400):        # bounded coqc memory: at most 400 cases per process
+        shuffled += ctx.coq_eval(REQS, 'run_enc', [to_coq(cases[i], txs[i]) for i in order[lo:lo + 6400]], case_type=CASE_TYPE, per_shard=250)
     both = [None] * len(cases)
     for i, b in zip(order, shuffled):
         both[i] = b
@@ -262,6 +264,8 @@ def run(ctx):
         cases = gen_cases(ctx, quick)
         results = evaluate(ctx, cases)
 
+    bad = [line(c) for c, r in zip(cases, results) if r[0].startswith('BADLINE')]
+    ctx.oblige('harness-accepts-every-generated-case', not bad, f'{len(bad)} lines rejected by the harness parser, e.g. {bad[:2]}')
     n_model = n_spec = 0
     reported = set()
     classes = {}
@@ -309,6 +313,12 @@ def run(ctx):
             if n_model <= 2:
                 ctx.violation('model-differs-from-impl', f'{line(c)}: impl `{impl[:80]}` model `{model[:80]}`',
                               {'cases': [list(c[:5]) + [list(c[5]) if c[5] else None]], 'impl': impl, 'model': model, 'spec': spec}, no_failing_input=True)
+    if not quick and not ctx.replay:
+        # same prefix of cases with every decode level switched on (logging paths execute): identical lines
+        k = min(len(cases), 20000)
+        loud = ctx.harness('cenc', [line(c) for c in cases[:k]], args=['--decode', 'max'])
+        diff = [i for i in range(k) if loud[i] != results[i][0]]
+        ctx.oblige('decode-level-max-gives-identical-results', not diff, f'{len(diff)} of {k} lines differ, first: {line(cases[diff[0]]) if diff else ""}')
     ctx.oblige('correspondence:client-encode-vs-model', n_model == 0, f'{n_model} cases where the implementation differs from the model only')
     ctx.oblige('correspondence:client-encode-vs-spec', n_spec == 0, f'{n_spec} cases where the implementation differs from the Spec')
     ctx.oblige('tx-id-field-is-the-task-counter', tx_bad == 0, f'{tx_bad} frames whose MBAP transaction id is not the number of requests the task saw before')
